@@ -302,7 +302,10 @@ def run_line(line: str) -> str:
     if toks[0] != "rf":
         raise Infra("not an rf line")
     s = Session(int(toks[1]), toks[2] == "1")
-    return s.run(split_ops(toks[3:]))
+    try:
+        return s.run(split_ops(toks[3:]))
+    finally:
+        simradio.unpatch_time()
 
 
 # ------------------------------------------------------------------------------------------------
